@@ -40,6 +40,7 @@ type vSessIn struct {
 }
 
 type vSessOut struct {
+	compressed bool // (wire side) the message's first frame had RSV1 set: its payload is DEFLATE data
 	kind    byte // 'm' data message, 'o' pong, 'i' ping (payload free), 'c' close
 	typ     MessageType
 	payload []byte
@@ -67,7 +68,21 @@ type vSession struct {
 	openCancel  context.CancelFunc
 	openSoFar   []byte
 	unfinished  bool // the connection ended while a streamed message was unfinished
+	comp        bool // every non-empty message written is compressed (threshold 1): concrete payloads, pool discipline watched
 	intruded    bool // a write reported success while another message was open: only the structure of the wire is judged
+}
+
+// local: payload of a message the application writes: arbitrary bytes, or - comp mode, where the real compressor runs
+// on it - a fixed pattern.
+func (s *vSession) local(tag string, n int) []byte {
+	if !s.comp {
+		return vBytes(tag, n)
+	}
+	b := make([]byte, n)
+	for i := range b {
+		b[i] = byte('a' + (len(s.trace)+i)%3)
+	}
+	return b
 }
 
 func (s *vSession) mk(f vFrame) vFrame {
@@ -159,7 +174,7 @@ func (s *vSession) opRead() {
 
 func (s *vSession) opWrite(n int, typ MessageType) {
 	s.trace += "W"
-	p := vBytes("w", n)
+	p := s.local("w", n)
 	keep := append([]byte{}, p...)
 	ctx, cancel := context.WithTimeout(vBG, time.Second)
 	err := s.c.Write(ctx, typ, p)
@@ -188,8 +203,8 @@ func (s *vSession) opWrite(n int, typ MessageType) {
 
 func (s *vSession) opStream(la, lb int) {
 	s.trace += "S"
-	a := vBytes("sa", la)
-	b := vBytes("sb", lb)
+	a := s.local("sa", la)
+	b := s.local("sb", lb)
 	ctx, cancel := context.WithTimeout(vBG, time.Second)
 	defer cancel()
 	failed := false
@@ -238,7 +253,7 @@ func (s *vSession) opBegin() {
 		cancel()
 		return
 	}
-	a := vBytes("ba", 2)
+	a := s.local("ba", 2)
 	_, err = w.Write(a)
 	vAssert(err == nil, "Gen.stream.succeeds-while-open")
 	s.open, s.openCancel, s.openSoFar = w, cancel, append([]byte{}, a...)
@@ -247,7 +262,7 @@ func (s *vSession) opBegin() {
 // opEnd: the open streamed message gets its last fragment and is closed.
 func (s *vSession) opEnd() {
 	s.trace += "E"
-	b := vBytes("bb", 1)
+	b := s.local("bb", 1)
 	_, e1 := s.open.Write(b)
 	e2 := s.open.Close()
 	s.openCancel()
@@ -325,10 +340,11 @@ func (s *vSession) checkWire() {
 	var act []vSessOut
 	var cur []byte
 	var curTyp MessageType
+	curZ := false
 	for _, f := range frames {
 		vAssert(!f.rsv2 && !f.rsv3, "Gen.wire.reserved-bits")
-		// every message of the program is below the compression threshold
-		vAssert(!f.rsv1, "Gen.wire.rsv1-only-on-compressed")
+		// every message of the program is below the compression threshold (comp mode: above it)
+		vAssert(!f.rsv1 || s.comp, "Gen.wire.rsv1-only-on-compressed")
 		switch f.opcode {
 		case 8:
 			vAssert(len(f.payload) != 1 && len(f.payload) <= 125, "Gen.wire.close-payload")
@@ -344,14 +360,15 @@ func (s *vSession) checkWire() {
 			act = append(act, vSessOut{kind: 'o', payload: f.payload})
 		case 1, 2:
 			curTyp = MessageType(f.opcode)
+			curZ = f.rsv1
 			cur = append([]byte{}, f.payload...)
 			if f.fin {
-				act = append(act, vSessOut{kind: 'm', typ: curTyp, payload: cur})
+				act = append(act, vSessOut{kind: 'm', typ: curTyp, payload: cur, compressed: curZ})
 			}
 		case 0:
 			cur = append(cur, f.payload...)
 			if f.fin {
-				act = append(act, vSessOut{kind: 'm', typ: curTyp, payload: cur})
+				act = append(act, vSessOut{kind: 'm', typ: curTyp, payload: cur, compressed: curZ})
 			}
 		default:
 			vAssert(false, "Gen.wire.opcode")
@@ -375,7 +392,10 @@ func (s *vSession) checkWire() {
 		switch e.kind {
 		case 'm':
 			vAssert(a.typ == e.typ, "Gen.wire.message-type")
-			vAssert(vEqBytes(a.payload, e.payload), "Gen.wire.message-payload")
+			if !a.compressed {
+				// (compressed payloads are decoded by the receiving library in C01.flate-e2e, not here)
+				vAssert(vEqBytes(a.payload, e.payload), "Gen.wire.message-payload")
+			}
 		case 'o':
 			vAssert(vEqBytes(a.payload, e.payload), "Gen.wire.pong-payload")
 		case 'c':
@@ -430,6 +450,12 @@ func verifGen_session() {
 	t.step = vParam("step", 0)
 	s := &vSession{client: client, deflate: mode != 0, t: t, usable: true, limit: 32768}
 	s.c = vNewConn(t, client, vCopts(mode), vParam("br", 16), vParam("bw", 32))
+	if vParam("comp", 0) == 1 && mode != 0 {
+		s.comp = true
+		s.c.flateThreshold = 1
+		vGhostPoolMode(0)
+		vGhostPoolMonitor(true)
+	}
 	lens := []int{0, 1, 3}
 	// prog > 0 (development aid): the program is fixed, one hexadecimal digit per step, least significant first
 	prog := vParam("prog", 0)
@@ -614,6 +640,10 @@ func verifGen_session() {
 	}
 	s.opCloseNow()
 	s.checkWire()
+	if s.comp {
+		// compressors, decompressors and buffers borrowed from the pools are handed back once, and not used afterwards
+		vAssertGhost(vGhostPoolViolations() == 0, "Gen.pool.discipline")
+	}
 	vAssert(vGhostElapsed() <= s.budget+vSlack()*time.Duration(1+len(s.trace)), "Gen.session.bounded-time")
 	vReach("Gen.session.done")
 	vClassify("program", s.trace)
